@@ -214,18 +214,24 @@ def cells(decls):
 
 
 def init_lines(decls, vals):
+    """initialisation of every declared variable: one line per variable (array constructors, column major)"""
+    def lit(ty, z):
+        if ty == "logical":
+            return ".true." if z else ".false."
+        if ty == "real":
+            return "%d.0" % z
+        return "%d" % z
     out = []
     for d in decls:
         v, ty, bs = d[0], d[1], d[2]
-        for c in cells([d]):
-            z = vals.get(c, 0)
-            lhs = v if not c[1] else "%s(%s)" % (v, ",".join(str(i) for i in c[1]))
-            if ty == "logical":
-                out.append("  %s = %s" % (lhs, ".true." if z else ".false."))
-            elif ty == "real":
-                out.append("  %s = %d.0" % (lhs, z))
-            else:
-                out.append("  %s = %d" % (lhs, z))
+        cs = cells([d])
+        if not bs:
+            out.append("  %s = %s" % (v, lit(ty, vals.get(cs[0], 0))))
+        elif len(bs) == 1:
+            out.append("  %s = (/ %s /)" % (v, ", ".join(lit(ty, vals.get(c, 0)) for c in cs)))
+        else:
+            out.append("  %s = reshape((/ %s /), (/ %s /))" % (v, ", ".join(lit(ty, vals.get(c, 0)) for c in cs),
+                                                              ", ".join(str(b[1] - b[0] + 1) for b in bs)))
     return out
 
 
